@@ -142,6 +142,16 @@ CLAIMED = {
         note="Does not decide that a depth-L input is accepted (language clause). Native stack use is bounded by argument "
              "from the descent rule (depth of recursion <= tree depth <= L), frame sizes being static.",
         design="§4 C19"),
+    "C11": dict(
+        technique="provenance analysis (source-derived values) and ownership typestate over every path of cbor_copy and its helpers; per-type shape rules against the harvested getters/constructors",
+        text="On every path of cbor_copy, _cbor_copy_int and _cbor_copy_float_ctrl: no value derived from the source is "
+             "inserted, attached, stored into heap memory or returned - only fresh copies are; callees receiving a source "
+             "pointer neither capture nor return it; references taken on source children are given back and every child "
+             "copy is released after insertion (so the result holds exactly one reference per node and source counts are "
+             "restored); each type arm rebuilds the same type / flavour / width from the source's own count, with members "
+             "copied in storage order; the switch is exhaustive.",
+        note="Byte-equality of the two serializations follows from shape + C03 by induction (argument). Failure arms: C06.",
+        design="§4 C11"),
     "C12": dict(
         technique="guarded-access and capacity typestate on every path of the container operations; classification of the new-capacity expression at the four growth sites under generated CBOR_BUFFER_GROWTH values",
         text="Structural necessary conditions, decided on all paths: indexed get/set/replace touch data[index] only where "
